@@ -281,6 +281,7 @@ struct RunCtx {
     ofds: Vec<std::rc::Weak<RefCell<OpenFileDescription>>>,
     inodes: Vec<std::rc::Weak<RefCell<Inode>>>,
     sched: Option<Rc<Sched>>,
+    final_fds: Option<String>,
 }
 
 thread_local! {
@@ -892,6 +893,8 @@ pub struct Run {
     pub unreaped: Vec<i32>,
     pub alive: Vec<i32>,
     pub panic: Option<String>,
+    /// descriptor table of the main shell when the script ended (None if it never got there)
+    pub final_fds: Option<String>,
 }
 
 pub const STUBS: &[&str] = &["true", "false", "pwd", "ext", "ext2", "envp"];
@@ -934,6 +937,7 @@ pub fn run_once(setup: &Setup, opts: &RunOpts) -> Run {
             ofds: vec![],
             inodes: vec![],
             sched: Some(Rc::clone(&sched)),
+            final_fds: None,
         }
     });
     {
@@ -1070,6 +1074,12 @@ pub fn run_once(setup: &Setup, opts: &RunOpts) -> Run {
         let task = async move {
             let mut env = Env::with_system(concurrent);
             shell_main(&mut env, args, hook).await;
+            // descriptor table of the shell when the script has ended (before exit closes everything)
+            let st = RUN.with(|r| r.borrow().state.clone());
+            if let Some(st) = st {
+                let t = strip_offsets(&fd_table(&st, Pid(2)));
+                RUN.with(|r| r.borrow_mut().final_fds = Some(t));
+            }
             yash_env::semantics::exit_or_raise(&env.system, env.exit_status).await
         };
         runner.run_virtual(task).await
@@ -1149,6 +1159,7 @@ pub fn run_once(setup: &Setup, opts: &RunOpts) -> Run {
         (end, unreaped, alive)
     };
     let trace = RUN.with(|r| std::mem::take(&mut r.borrow_mut().trace));
+    let final_fds = RUN.with(|r| r.borrow_mut().final_fds.take());
     RUN.with(|r| *r.borrow_mut() = RunCtx::default());
     // break Rc cycles: drop tasks
     sched.tasks.borrow_mut().clear();
@@ -1169,6 +1180,7 @@ pub fn run_once(setup: &Setup, opts: &RunOpts) -> Run {
         unreaped,
         alive,
         panic,
+        final_fds,
     }
 }
 
